@@ -82,6 +82,16 @@ class RunningFailure(Observer):
             for loss in obs.losses[-2:]:
                 if sim.now_us - loss['t_us'] < 45 * US and process.namespec in loss.get('stopping_there', ()) \
                         and process.namespec not in loss['only_there']:
+                    # ... as far as the Master knew: the STOPPING event of the lost instance must have reached it
+                    victim = loss['inst']
+                    group, _, name = process.namespec.partition(':')
+                    if not any(r['dst'] == inst.nick and r['src'] == victim and r.get('header') == 1
+                               and r.get('outcome') == 'ok' and r.get('comm_type') == 'SupvisorsPublication'
+                               and isinstance(r.get('body'), dict) and r['body'].get('group') == group
+                               and r['body'].get('name') == name and r['body'].get('state') == 40
+                               for r in reversed(sim.wire[-4000:])):
+                        obs._probe('stopping_unknown_to_master_skipped')
+                        continue
                     obs._probe('add_job_for_stopping_process')
                     obs.violate('strategy-on-stopping-process',
                                 {'inst': inst.nick, 'process': process.namespec, 'strategy': strategy.name,
@@ -154,9 +164,16 @@ class RunningFailure(Observer):
         for other in sim.instances.values():
             if other is not inst and other.alive and other.sd is not None:
                 elsewhere |= {ns for ns, st in truth(other).items() if st in ('RUNNING', 'STARTING', 'BACKOFF')}
+        # what every other instance BELIEVED running there (events still in flight at the crash never arrive)
+        believed = {}
+        for other in sim.instances.values():
+            if other is not inst and other.alive and other.supvisors is not None:
+                believed[other.nick] = {p.namespec for app in other.supvisors.context.applications.values()
+                                        for p in app.processes.values() if inst.identifier in p.running_identifiers
+                                        and p.info_map.get(inst.identifier, {}).get('statename') != 'STOPPING'}
         self.losses.append({'t_us': sim.now_us, 'inst': inst.nick, 'identifier': inst.identifier,
                             'only_there': sorted(lost - elsewhere), 'elsewhere': elsewhere,
-                            'stopping_there': sorted(stopping - elsewhere)})
+                            'stopping_there': sorted(stopping - elsewhere), 'believed': believed, 'truly': lost})
         self._probe('loss')
 
     def on_child(self, sim, inst, child, what):
@@ -229,6 +246,13 @@ class RunningFailure(Observer):
                     if rec['method'].startswith('supvisors.') and len(rec.get('args', [])) >= 2}
         for app_name, items in by_app.items():
             app = ctx.applications[app_name]
+            lagging = {ns for ns in loss.get('believed', {}).get(m.nick, ()) if ns.split(':')[0] == app_name
+                       and ns not in loss.get('truly', ())}
+            if lagging:
+                # the Master still believed a process running there that had just stopped (its last events died with the
+                # instance): it applies that process's strategy too, in good faith
+                self._probe('master_view_lagged_at_loss_skipped')
+                continue
             if app_name in operated:
                 # the user started / stopped this very application around the loss: the strategy alone is not observable
                 self._probe('application_operated_skipped')
